@@ -110,7 +110,12 @@ class Verifier(Dyn):
             binding[p] = self.sym(c.types[p], p, record_input=True)
         for g, ty in c.ghost_params.items():
             self.st.ghost[g] = self.sym(ty, "ghost_" + g, record_input=True)
+        for fv, ty in c.labels.get("free_vars", {}).items():
+            # a nested function verified on its own: the variables it captures from the enclosing function are arbitrary values of the stated types
+            binding[fv] = self.sym(ty, fv, record_input=True)
         self.st.env = dict(binding)
+        for ghost_local, src in c.labels.get("entry_snapshot", {}).items():
+            self.st.env[ghost_local] = binding[src]     # ghost local: the entry value of a parameter the body re-assigns
         self.frame.env = self.st.env
         if node.name == "__init__" and self.fi.cls and isinstance(binding.get(names[0]), VEnt):
             self.class_defaults(binding[names[0]])
